@@ -221,6 +221,12 @@ class BigEdge:
 
         vector = np.array((- (vobject.y - yc), (vobject.x - xc)))
 
+        if len(self.vertices) == 2:
+            # two points define a straight interface: its direction is the segment
+            # itself (the fitted centre is the midpoint, whose "tangent" is the normal)
+            chord = np.array(self.get_straight_edge_versor_from_vid(vid))
+            return chord * (np.linalg.norm(vector) / np.linalg.norm(chord))
+
         correct_sign = self.get_versor_sign(vid)
         if np.any(np.sign(vector) != correct_sign):
             correction = correct_sign * np.sign(vector)
